@@ -873,7 +873,10 @@ func batchRetry(t *testing.T, res *h.Result, r *rand.Rand) {
 		L := r.IntN(8)
 		script := make([]byte, L)
 		for i := range script {
-			script[i] = "ttttpoc"[r.IntN(7)] // c: the operation's own work cancels the context, then fails transiently
+			// c: the operation's own work cancels the context, then fails transiently; T, D:
+			// transient by identity (a TimeoutError of the operation, a deadline of a context of
+			// its own); P: permanent by its text only (what the NATS client says for a refused write)
+			script[i] = "tttTDpPoc"[r.IntN(9)]
 		}
 		maxAtt := r.IntN(7)
 		cfg := leader.RetryConfig{MaxAttempts: maxAtt, BackoffConfig: leader.BackoffConfig{
@@ -890,6 +893,7 @@ func batchRetry(t *testing.T, res *h.Result, r *rand.Rand) {
 		key := fmt.Sprintf("%s/%d/%v/%v/%v", script, maxAtt, cfg.BackoffConfig, cancelAt, preCancelled)
 		distinct[key] = true
 		var calls []time.Duration
+		var errs []error // what each invocation returned
 		var ret error
 		var ctxErrAtEnd error
 		var cancelledAt time.Duration = -1
@@ -906,8 +910,9 @@ func batchRetry(t *testing.T, res *h.Result, r *rand.Rand) {
 				defer tm.Stop()
 			}
 			i := 0
-			ret = leader.RetryWithBackoff(ctx, cfg, func() error {
+			ret = leader.RetryWithBackoff(ctx, cfg, func() (opErr error) {
 				calls = append(calls, time.Since(start))
+				defer func() { errs = append(errs, opErr) }()
 				c := byte('o')
 				if i < len(script) {
 					c = script[i]
@@ -928,8 +933,14 @@ func batchRetry(t *testing.T, res *h.Result, r *rand.Rand) {
 						cancel()
 					}
 					return errTransient
+				case 'T':
+					return leader.NewTimeoutError("refresh", 50*time.Millisecond, nil)
+				case 'D':
+					return fmt.Errorf("read of the record: %w", context.DeadlineExceeded)
 				case 'p':
 					return errPermanent
+				case 'P':
+					return fmt.Errorf("nats: wrong last sequence: %d: key exists", 7+len(calls))
 				}
 				return nil
 			})
@@ -939,6 +950,12 @@ func batchRetry(t *testing.T, res *h.Result, r *rand.Rand) {
 		desc := fmt.Sprintf("script=%q MaxAttempts=%d backoff=%+v cancelAt=%v pre=%v -> calls at %v, returned %v", script, maxAtt, cfg.BackoffConfig, cancelAt, preCancelled, calls, ret)
 		outcome := func(i int) byte {
 			if i < len(script) {
+				switch script[i] {
+				case 'T', 'D':
+					return 't'
+				case 'P':
+					return 'p'
+				}
 				return script[i]
 			}
 			return 'o'
@@ -981,17 +998,18 @@ func batchRetry(t *testing.T, res *h.Result, r *rand.Rand) {
 					addViol(res, "C17", "retry-return", "retry-error-after-success", desc)
 				}
 			case last == 'p':
-				if !errors.Is(ret, errPermanent) {
+				if !errors.Is(ret, errs[len(calls)-1]) {
 					addViol(res, "C17", "retry-return", "retry-permanent-not-returned", desc)
 				}
 			default:
+				lastErr := errs[len(calls)-1]
 				if ret == nil {
 					addViol(res, "C17", "retry-return", "retry-nil-after-failure", desc)
 				}
-				if !errors.Is(ret, errTransient) && !errors.Is(ret, context.Canceled) {
+				if !errors.Is(ret, lastErr) && !errors.Is(ret, context.Canceled) {
 					addViol(res, "C17", "retry-return", "retry-unexpected-error", desc)
 				}
-				if errors.Is(ret, errTransient) && !(maxAtt > 0 && len(calls) == maxAtt) {
+				if errors.Is(ret, lastErr) && !errors.Is(ret, context.Canceled) && !(maxAtt > 0 && len(calls) == maxAtt) {
 					addViol(res, "C17", "retry-gave-up-early", "retry-gave-up-before-max-attempts", desc)
 				}
 			}
